@@ -128,6 +128,12 @@ def check_object(P, ver, s, order_log=None):
             P.violation("foreign", "C07:v%s:eq-raises-on-%s" % (ver, type(f).__name__), case, error=repr(r))
         elif r[0] is not False or r[1] is not False:
             P.violation("foreign", "C07:v%s:equals-a-%s" % (ver, type(f).__name__), case, observed=repr(r))
+        # the check runs under Python 3, where `!=` is the other face of the same comparison
+        ok, r = obs.call(lambda: (o != f, f != o))
+        if not ok:
+            P.violation("foreign", "C07:v%s:ne-raises-on-%s" % (ver, type(f).__name__), case, error=repr(r))
+        elif r[0] is not True or r[1] is not True:
+            P.violation("foreign", "C07:v%s:not-unequal-to-a-%s" % (ver, type(f).__name__), case, observed=repr(r))
     ok, r = obs.call(lambda: o == o)
     if not ok or r is not True:
         P.violation("eq-oracle", "C07:v%s:not-reflexive" % ver, case, observed=repr(r))
@@ -159,6 +165,10 @@ def check_pair(P, va, sa, vb, sb, kind="?"):
         P.violation("eq-oracle", "C07:%s:%s:%s" % (tag, "unequal-but-should-be-equal" if expect else "equal-but-should-differ", kind),
                     case, observed=[repr(ab), repr(ba)], expected=expect)
         return
+    ok, r = obs.call(lambda: (a != b, b != a))
+    if not ok or r[0] is expect or r[1] is expect or not all(isinstance(x, bool) for x in r):
+        P.violation("eq-oracle", "C07:%s:ne-operator-disagrees-with-eq:%s" % ("v%s" % va if va == vb else "cross-version", kind), case,
+                    observed=repr(r), eq=expect)
     ok, r = obs.call(lambda: (hash(a), hash(b), len({a, b}), a in {b: 1}))
     if not ok:
         P.violation("eq-oracle", "C07:pair:hash-or-set-raises", case, error=repr(r))
